@@ -649,7 +649,10 @@ func (t *terminal) handleCmdCSI(r escapeReader) bool {
 				paramCount = 1
 				params = paramStore[:paramCount]
 			}
-			t.screen().scroll(t.screen().CursorPos().Y, t.screen().BottomMargin(), params[0])
+			// only acts when the cursor is inside the scroll region
+			if y := t.screen().CursorPos().Y; y >= t.screen().TopMargin() && y <= t.screen().BottomMargin() {
+				t.screen().scroll(y, t.screen().BottomMargin(), params[0])
+			}
 
 		case 'M': // Delete lines, scroll up
 			if paramCount == 0 {
@@ -657,7 +660,10 @@ func (t *terminal) handleCmdCSI(r escapeReader) bool {
 				paramCount = 1
 				params = paramStore[:paramCount]
 			}
-			t.screen().scroll(t.screen().CursorPos().Y, t.screen().BottomMargin(), -params[0])
+			// only acts when the cursor is inside the scroll region
+			if y := t.screen().CursorPos().Y; y >= t.screen().TopMargin() && y <= t.screen().BottomMargin() {
+				t.screen().scroll(y, t.screen().BottomMargin(), -params[0])
+			}
 
 		case 'S': // Scroll up
 			if paramCount == 0 {
